@@ -129,8 +129,8 @@ class Proxy:
         both = set(plan) & set(ec.executed_ids)
         if both:
             self.state_errors.append(("planned-and-executed", f"at {where}({sid}): {sorted(both)}"))
-        if sid not in ec.executed_ids:
-            self.state_errors.append(("visited-not-marked-executed", f"at {where}({sid})"))
+        # (when exactly a visited statement is entered into executed_ids is the controller's own
+        # business -- only the observable consequences are judged: see check_controller)
 
     def evaluate_condition(self, stmt):
         self._hook("evaluate_condition", stmt.id)
